@@ -1,6 +1,9 @@
 """C19 - character-matrix row/column operations select exactly what they name; terminate."""
 import io
 import itertools
+import os
+import shutil
+import tempfile
 
 import common
 from common import time_limit, Timeout, hex6
@@ -11,31 +14,35 @@ RULE = ("histories of 1-10 operations (concatenate, export_character_indices/_su
         "update_/extend_sequences, extend_matrix, remove_/discard_/keep_sequences) over a pool of 2-5 matrices of one of the 8 "
         "data types, two namespaces (the second one foreign), partial taxon overlap, ragged and rectangular rows, labels drawn "
         "from a small colliding set (None, equal, equal up to case, generated locusNNN / x_002 forms), the same object passed "
-        "twice and as its own argument; plus concatenate_from_streams on NEXUS sources; thorough adds the exhaustive small scope "
+        "twice and as its own argument; plus concatenate_from_streams / concatenate_from_paths on NEXUS sources; thorough adds the exhaustive small scope "
         "(2 taxa, every row-presence x length pattern, every binary op pair, every fill/pack/remove/discard/keep/export argument, "
         "every label list up to length 3). non-trivial = at least two rows and one non-empty row among the operands, or a "
         "concatenation of >= 2 matrices")
 MODELLED_NOT_VERIFIED = [
     "C19: the Lean model of charmatrixmodel.CharacterMatrix (rows as an insertion-ordered association list, subsets as an "
     "ordered caseless association list) is hand-written; it is tied to the code by the per-operation comparison of the full "
-    "canonical post-state (rows by taxon, subsets in order with their labels, returned size, exception class)",
+    "canonical post-state (rows by taxon, subsets in order with their labels, returned size, exception class); the dict's "
+    "insertion order is not in the statement and is deliberately not compared",
     "C19: cells (state identities, floats, None) and character types are carried opaquely as small numbers; "
     "case folding is modelled for ASCII labels only (generated labels are ASCII or uncased)",
     "C19: 'arguments unchanged' and absence of aliasing are checked by fingerprinting every matrix of the pool before and after "
     "each call (value semantics make them trivial in the model); namespaces are not mutated during a history",
 ]
-EXPLANATION = ("29 theorems in Props/C19.lean about the definitions drv_c19 runs, none _partial. (d) add_spec (left-biased union), replace_spec, "
-               "update_spec (right-biased union), extend_spec, extendMatrix_eq, remove_spec / remove_untouched / remove_ok_iff (KeyError "
-               "exactly when a named taxon has no row or is named twice), discard_spec, keep_spec, namespace_refused. (c) padLoop_eq (closed "
-               "form of the while loop: old cells kept, only the value added on the chosen side), fill_spec, fill_equal_length, "
-               "fillTaxa_spec, pack_spec, pack_equal_length. (b) export_row_spec (backwards deletion loop = selected columns ascending), "
-               "export_spec, exportSub_caseless, exportSub_undefined. (a) concat_rows (per-taxon concatenation in argument order), "
-               "concat_subsets (one span per source matrix, consecutive), concat_subset_width, concat_subset_covers (the i-th subset cut out "
-               "of a concatenated row is that taxon's row in matrix i), concat_names_distinct, concat_same_namespace. (e) termination: every "
-               "model function is total; padLoop and freeFrom (the repaired free-name loop) are well-founded recursions without fuel, "
-               "freeName_fresh / freeName_first say the search returns the first free label. Hypotheses: dict keys distinct, namespace "
-               "members distinct, rows keyed by namespace taxa; satisfiability shown by examples incl. a concatenation with labels equal up "
-               "to case. 'Arguments unchanged' is value semantics in the model and a fingerprint check on the implementation.")
+EXPLANATION = ("42 theorems in Props/C19.lean about the definitions drv_c19 runs, none _partial. (d) add_spec (left-biased union), replace_spec, "
+               "update_spec (right-biased union), extend_spec, extendMatrix_spec (+ extendMatrix_eq), remove_spec / remove_untouched / "
+               "remove_ok_iff (KeyError exactly when a named taxon has no row or is named twice), discard_spec, keep_spec, rowOp_spec (same "
+               "namespace: only the rows change; other namespace: ValueError). (c) padLoop_eq (closed form of the while loop), fill_spec, "
+               "fill_equal_length, fill_all_equal (all rows, when rows are keyed by namespace taxa), fillTaxa_spec, pack_spec, "
+               "pack_equal_length(_sized). (b) export_row_spec (backwards deletion loop = selected columns ascending), export_spec, "
+               "exportSub_caseless, exportSub_undefined. (a) concat_ok_iff / concat_succeeds (over a non-empty namespace concatenate returns "
+               "iff every matrix passes the four documented guards - no label combination makes it fail), concat_error_kind, "
+               "concat_refuses_foreign, concat_empty_namespace_refused, concat_rows, concat_subsets, concat_subset_width, concat_subset_covers, "
+               "concat_all_present (pigeonhole: every taxon has a row in every source), concat_subset_labels (the exact name and span of each "
+               "subset), concat_labels_kept, concat_names_distinct, concat_same_namespace, concat_keys_nodup. Histories: keys_nodup_preserved "
+               "(every operation keeps the row store a dict, so the Nodup hypotheses compose along any operation sequence). (e) termination: "
+               "every model function is total; padLoop and freeFrom (the repaired free-name loop) are well-founded recursions without fuel, "
+               "freeName_fresh / freeName_first. 'Arguments unchanged' is value semantics in the model and a fingerprint check on the "
+               "implementation; concatenate_from_streams/_paths are tied by oracle and model comparison only (parsing is C09/C13).")
 
 CLASSES = {
     "dna": "DnaCharacterMatrix", "rna": "RnaCharacterMatrix", "nucleotide": "NucleotideCharacterMatrix",
@@ -64,6 +71,7 @@ class Env(object):
         self.nss = [dendropy.TaxonNamespace(["t%d" % i for i in range(n)]) for n in ns_sizes]
         self.gid_of = {}
         self.taxon_of = {}
+        self.unknown = []      # keeps unknown taxa alive so that their id() is not reused
         for k, ns in enumerate(self.nss):
             for i, t in enumerate(ns):
                 self.gid_of[id(t)] = 100 * k + i
@@ -119,7 +127,10 @@ class Snap(object):
         self.order = []
         self.rows = {}
         for t, seq in m._taxon_sequence_map.items():
-            g = env.gid_of.get(id(t), 9000)
+            g = env.gid_of.get(id(t))
+            if g is None:       # a taxon of no known namespace: distinct ids from 9000, in order of appearance
+                g = env.gid_of[id(t)] = 9000 + len(env.unknown)
+                env.unknown.append(t)
             self.order.append(g)
             self.rows[g] = [env.code(v) for v in seq.values()]
         self.subs = [(k, sorted(cs.character_indices)) for k, cs in m.character_subsets.items()]
@@ -136,8 +147,11 @@ class Snap(object):
         return state_string(self.rows, self.subs)
 
 
-def state_string(rows, subs):
-    toks = ["R"] + ["%d=%s" % (g, ".".join(str(c) for c in rows[g])) for g in sorted(rows)] + ["S"]
+def state_string(rows, subs, order=None):
+    toks = ["R"] + ["%d=%s" % (g, ".".join(str(c) for c in rows[g])) for g in sorted(rows)]
+    if order is not None:
+        toks += ["O"] + [str(g) for g in order]      # dict insertion order: decides `sequence_size`, hence subset widths
+    toks += ["S"]
     toks += ["%s=%s" % (hex6(k), ".".join(str(i) for i in idx)) for k, idx in subs]
     return " ".join(toks)
 
@@ -666,33 +680,46 @@ def stream_case(ctx, dendropy, case, pending):
     """concatenate_from_streams on NEXUS documents: case = {labels, titles, rows: [[str per taxon] per stream]}"""
     labels, titles, mats = case["labels"], case["titles"], case["rows"]
     docs = [nexus_doc(labels, t, rows) for t, rows in zip(titles, mats)]
-    rep = dict(case, op="concatenate_from_streams", stream=True)
+    via = case.get("via", "streams")
+    entry = "concatenate_from_" + via
+    rep = dict(case, op=entry, stream=True)
     status, res = "ok", None
+    tmp = tempfile.mkdtemp(prefix="c19-") if via == "paths" else None
     try:
         with time_limit(TL * 2):
-            res = dendropy.DnaCharacterMatrix.concatenate_from_streams([io.StringIO(d) for d in docs], "nexus")
+            if via == "paths":
+                paths = []
+                for i, d in enumerate(docs):
+                    paths.append(os.path.join(tmp, "m%d.nex" % i))
+                    with open(paths[-1], "w") as f:
+                        f.write(d)
+                res = dendropy.DnaCharacterMatrix.concatenate_from_paths(paths, "nexus")
+            else:
+                res = dendropy.DnaCharacterMatrix.concatenate_from_streams([io.StringIO(d) for d in docs], "nexus")
     except Timeout:
         status = "Timeout"
     except Exception as e:
         status = "Internal(%s)" % type(e).__name__
+    finally:
+        if tmp is not None:
+            shutil.rmtree(tmp, ignore_errors=True)
     rep["status"] = status
-    ctx.case(["streams", case], len(mats) >= 2, kind="concatenate_from_streams",
-             sample={"op": "concatenate_from_streams", "titles": titles, "rows": mats})
+    ctx.case([via, case], len(mats) >= 2, kind=entry, sample={"op": entry, "titles": titles, "rows": mats})
     if status != "ok":
-        ctx.fail("Timeout-concatenate_from_streams" if status == "Timeout" else "exception",
-                 "concatenate_from_streams of %d NEXUS sources titled %s: %s" % (len(docs), titles, status), rep)
+        ctx.fail("Timeout-" + entry if status == "Timeout" else "exception",
+                 "%s of %d NEXUS sources titled %s: %s" % (entry, len(docs), titles, status), rep)
         return
     got = {t.label: "".join(str(v) for v in seq.values()) for t, seq in res._taxon_sequence_map.items()}
     want = {l: "".join(rows[i] for rows in mats) for i, l in enumerate(labels)}
     if got != want:
-        ctx.fail("concat-rows", "concatenate_from_streams: rows %s, concatenation in argument order is %s" % (got, want), rep)
+        ctx.fail("concat-rows", entry + ": rows %s, concatenation in argument order is %s" % (got, want), rep)
     spans, off = [], 0
     for rows in mats:
         spans.append(list(range(off, off + len(rows[0]))))
         off += len(rows[0])
     subs = [(k, sorted(cs.character_indices)) for k, cs in res.character_subsets.items()]
     if [i for _, i in subs] != spans or len(set(k.lower() for k, _ in subs)) != len(subs):
-        ctx.fail("concat-subsets", "concatenate_from_streams: subsets %s, expected spans %s under distinct names" % (subs, spans), rep)
+        ctx.fail("concat-subsets", entry + ": subsets %s, expected spans %s under distinct names" % (subs, spans), rep)
     # the model is asked the same question on equivalent matrices
     if pending is not None:
         sym = {s: i + 1 for i, s in enumerate(x.symbol for x in dendropy.DnaCharacterMatrix.datatype_alphabet)}
@@ -705,7 +732,7 @@ def stream_case(ctx, dendropy, case, pending):
             toks.append("0")
             ms.append(" ".join(toks))
         rows_now = {labels.index(l): [sym[c] for c in s] for l, s in got.items()}
-        pending.append(("concat %d %s" % (len(ms), " ".join(ms)), {"op": {"op": "concatenate_from_streams"}, "case": case},
+        pending.append(("concat %d %s" % (len(ms), " ".join(ms)), {"op": {"op": entry}, "case": case},
                         "ok " + state_string(rows_now, subs)))
 
 
@@ -718,7 +745,7 @@ def gen_stream_case(rng):
     for _ in range(k):
         w = rng.randint(1, 4)
         mats.append(["".join(rng.choice("ACGT-?N") for _ in range(w)) for _ in range(n)])
-    return {"labels": labels, "titles": titles, "rows": mats}
+    return {"labels": labels, "titles": titles, "rows": mats, "via": rng.choice(["streams", "streams", "paths"])}
 
 
 # ------------------------------------------------------------------------------------------------ exhaustive small scope
@@ -866,7 +893,8 @@ def replay(ctx, rec):
     c = rec["replay"]
     pending = []
     if c.get("stream"):
-        stream_case(ctx, dendropy, {"labels": c["labels"], "titles": c["titles"], "rows": c["rows"]}, pending)
+        stream_case(ctx, dendropy, {"labels": c["labels"], "titles": c["titles"], "rows": c["rows"],
+                                    "via": c.get("via", "streams")}, pending)
     else:
         run_history(ctx, dendropy, {"dtype": c["dtype"], "ns_sizes": c["ns_sizes"], "init": c["init"], "ops": c["ops"]},
                     pending, shrink=False)
